@@ -27,14 +27,15 @@ fn main() {
     }).collect();
     ctx.run_slice(Slice::new(format!("leaked-handle[{} programs]", pl.len()), pl.len() as u64, |i, loc| check_program::<B>(&pl[i as usize], loc)));
     // forget / forget_monogamous on arbitrary lax terms: edge label 0 is the variable label
-    let spec = if quick { Spec::lax(3, 1, 2, 2, 2, 1, 1, 1) } else { Spec::lax(3, 2, 2, 2, 2, 1, 1, 1) };
-    let u = spec.universe();
-    let cap = if quick { u.count() } else { 15_000_000 };
-    ctx.run_slice(Slice::new(format!("forget-terms[{} first {}]", spec.name(), cap.min(u.count())), u.count().min(cap), |i, loc| check_forget_term(&u.get(i), loc)));
+    let specs = if quick { vec![Spec::lax(3, 1, 2, 2, 2, 1, 1, 1)] } else { Spec::family_3x2(1, 1, false) };
+    for spec in specs {
+        let u = spec.universe();
+        ctx.run_slice(Slice::new(format!("forget-terms[{}]", spec.name()), u.count(), |i, loc| check_forget_term(&u.get(i), loc)));
+    }
     if quick {
         let spec2 = Spec { e_min: 2, ..Spec::lax(2, 2, 2, 2, 2, 1, 1, 0) };
         let u2 = spec2.universe();
-        ctx.run_slice(Slice::new(format!("forget-terms-2-edges[{}]", spec2.name()), u2.count().min(600_000), |i, loc| check_forget_term(&u2.get(i), loc)));
+        ctx.run_slice(Slice::new(format!("forget-terms-2-edges[{}]", spec2.name()), u2.count(), |i, loc| check_forget_term(&u2.get(i), loc)));
     }
     // a third node label on four nodes (label-keyed caches in the functor machinery behind forget)
     let s3l = Spec { n_min: 4, n_max: 4, e_min: 0, e_max: 1, ks: 1, kt: 1, lw: 3, lx: 2, a: 1, b: 1, q: 0 };
